@@ -130,7 +130,7 @@ fn c08_tx_retry_exhausted() {
     kani::assume(p.retry_count > fdl.parameters().max_retry_limit);
     let s0 = snap(&p);
     let mut buf = [0u8; 256];
-    let r = p.transmit_telegram(vk_any_instant(), &dp_state(kani::any()), &fdl, crate::fdl::TelegramTx::new(&mut buf), crate::fdl::HighPrioOnly::No);
+    let r = p.transmit_telegram(vk_any_instant(), &dp_state(kani::any()), &fdl, crate::fdl::TelegramTx::new(&mut buf), vk_any_hp());
     match r {
         Err((_, ev)) => assert!(ev == Some(PeripheralEvent::Offline)),
         Ok(_) => assert!(false),
@@ -160,7 +160,7 @@ fn c03_tx_kind() {
     let has_cfg = p.options.config.is_some();
     let operate: bool = kani::any();
     let mut buf = [0u8; 256];
-    let r = p.transmit_telegram(vk_any_instant(), &dp_state(operate), &fdl, crate::fdl::TelegramTx::new(&mut buf), crate::fdl::HighPrioOnly::No);
+    let r = p.transmit_telegram(vk_any_instant(), &dp_state(operate), &fdl, crate::fdl::TelegramTx::new(&mut buf), vk_any_hp());
     assert!(p.fcb == s0.fcb && p.state == s0.state && p.diag_needed == s0.diag_needed);
     // expected kind: 0 none, 1 diag, 2 setprm, 3 chkcfg, 4 dataexch
     let kind = match state {
@@ -203,7 +203,7 @@ fn c03_tx_setprm_bytes() {
     let np = p.options.user_parameters.unwrap().len();
     let (sync, freeze, groups, ident) = (p.options.sync_mode, p.options.freeze_mode, p.options.groups, p.options.ident_number);
     let mut buf = [0u8; 256];
-    let res = p.transmit_telegram(vk_any_instant(), &dp_state(kani::any()), &fdl, crate::fdl::TelegramTx::new(&mut buf), crate::fdl::HighPrioOnly::No).ok().unwrap();
+    let res = p.transmit_telegram(vk_any_instant(), &dp_state(kani::any()), &fdl, crate::fdl::TelegramTx::new(&mut buf), vk_any_hp()).ok().unwrap();
     let (_, _, _, _, _, off, len) = sent(&buf, &res);
     assert!(len == 7 + np);
     let wd = fdl.parameters().watchdog_factors;
@@ -229,7 +229,7 @@ fn c03_tx_chkcfg_bytes() {
     kani::assume(p.retry_count <= fdl.parameters().max_retry_limit && p.options.config.is_some());
     let nc = p.options.config.unwrap().len();
     let mut buf = [0u8; 256];
-    let res = p.transmit_telegram(vk_any_instant(), &dp_state(kani::any()), &fdl, crate::fdl::TelegramTx::new(&mut buf), crate::fdl::HighPrioOnly::No).ok().unwrap();
+    let res = p.transmit_telegram(vk_any_instant(), &dp_state(kani::any()), &fdl, crate::fdl::TelegramTx::new(&mut buf), vk_any_hp()).ok().unwrap();
     let (_, _, _, _, _, off, len) = sent(&buf, &res);
     assert!(len == nc);
     let i: usize = kani::any();
@@ -251,7 +251,7 @@ fn c04_tx_dataexch_bytes() {
     let (nq, ni) = (p.pi_q().len(), p.pi_i().len());
     let operate: bool = kani::any();
     let mut buf = [0u8; 256];
-    let res = p.transmit_telegram(vk_any_instant(), &dp_state(operate), &fdl, crate::fdl::TelegramTx::new(&mut buf), crate::fdl::HighPrioOnly::No).ok().unwrap();
+    let res = p.transmit_telegram(vk_any_instant(), &dp_state(operate), &fdl, crate::fdl::TelegramTx::new(&mut buf), vk_any_hp()).ok().unwrap();
     let (_, _, dsap, ssap, _, off, len) = sent(&buf, &res);
     assert!(dsap.is_none() && ssap.is_none() && len == nq);
     let i: usize = kani::any();
@@ -470,7 +470,7 @@ fn round<'a>(p: &mut Peripheral<'a>, sl: &mut Slave, fdl: &crate::fdl::FdlActive
     let mut buf = [0u8; 256];
     let now = crate::time::Instant::ZERO;
     let before = crate::fdl::__verif_kani_telegram::vk_last_tx().map(|t| t.calls).unwrap_or(0);
-    let r = p.transmit_telegram(now, dp, fdl, crate::fdl::TelegramTx::new(&mut buf), crate::fdl::HighPrioOnly::No);
+    let r = p.transmit_telegram(now, dp, fdl, crate::fdl::TelegramTx::new(&mut buf), vk_any_hp());
     if r.is_err() { return; }
     let t = crate::fdl::__verif_kani_telegram::vk_last_tx().unwrap();
     assert!(t.calls == before + 1);
